@@ -4,7 +4,7 @@
 # recorded as catching it (meta.json checks_fired), revert, and report any
 # seed that is no longer caught.  Nothing is committed to /repo.
 cd /verif
-IDS=${@:-$(ls seeded | grep '^C[0-9]*$')}
+IDS=${@:-$(ls seeded | grep -E "^C[0-9]+(s[0-9])?$")}
 FAIL=0
 for id in $IDS; do
   P=seeded/$id/patch.diff
